@@ -189,7 +189,9 @@ func HarnessC08_Structure() {
 	// Known finding F-C08-extra-packages-tolerated: packages other than LOGINACK between
 	// the negotiation DONE and the second LOGINACK are skipped instead of rejected
 	vfKnown("F-C08-extra-packages-tolerated", edit == 2 && (i == 5 || (i == 4 && vfIsDone(other))))
-	sameKind := edit == 1 && ((i == 4 && vfIsDone(other)) || (i == 7 && vfIsDone(other)))
+	// replacing a DONE by the (final) DONE of the alternatives, or inserting one right before
+	// the last DONE, leaves a script whose consumed prefix is the valid acceptance
+	sameKind := (edit == 1 && (i == 4 || i == 7) && vfIsDone(other)) || (edit == 2 && i == 7 && vfIsDone(other))
 	if !sameKind {
 		vfAssert(err != nil, "a reply script that is not the valid one yields an error")
 	}
